@@ -963,6 +963,14 @@ func aliases(v, b ssa.Value, seen map[ssa.Value]bool) bool {
 		return aliases(x.X, b, seen)
 	case *ssa.Extract:
 		return aliases(x.Tuple, b, seen)
+	case *ssa.Call:
+		// a bytes.Buffer built over the buffer hands its storage back out (Bytes / Next) until it grows
+		switch c := CalleeOf(x); {
+		case c.Is("bytes:NewBuffer"):
+			return aliases(Arg(x, 0), b, seen)
+		case c.Is("bytes:Buffer.Bytes", "bytes:Buffer.Next"):
+			return aliases(Recv(x), b, seen)
+		}
 	case *ssa.UnOp:
 		if x.Op == token.MUL {
 			if a, ok := x.X.(*ssa.Alloc); ok {
